@@ -106,6 +106,7 @@ type Scenario struct {
 	Seed    uint64                  `json:"seed"`
 	Arm     string                  `json:"arm,omitempty"`
 	Mode    string                  `json:"mode,omitempty"` // property-specific variant of the arm
+	Mode2   string                  `json:"mode2,omitempty"` // C19: which workload runs through REST
 	Project *ProjectSpec            `json:"project"`
 	LogBuf  *LogBufSpec             `json:"logbuf,omitempty"` // C18: workload on a bare log buffer instead of a project
 	Updates []*ProjectSpec          `json:"updates,omitempty"` // successive configurations for update ops (index = Op.N)
@@ -130,7 +131,7 @@ type Scenario struct {
 	IterMode    int              `json:"iter_mode,omitempty"`
 	IterRot     int              `json:"iter_rot,omitempty"`
 	Observe     bool             `json:"observe"` // observer task at stable points
-	Rest        bool             `json:"rest,omitempty"`
+	Rest        bool             `json:"rest,omitempty"` // build the REST server and the bundled client over the runner; ops with rest=true go through them
 	// injection-point sweep: make client Clients[SweepClient] op 0 runnable at scheduler step SweepStep
 	SweepStep int `json:"sweep_step,omitempty"`
 }
